@@ -317,7 +317,9 @@ def real_runs(ctx, cov):
                 " *) echo out-$1;;\nesac\n")
     os.chmod(helper, 0o755)
     real = []
-    for fan in (1, 3, 8):
+    for fan in (1, 3, 8, 1, 3, 8):
+        if len(real) >= 3 and real[fan == 3 and 1 or fan == 8 and 2 or 0]["ok"]:
+            continue                    # second round: only the runs that were not ok are tried once more (loaded machine)
         t0 = time.time()
         try:
             p = subprocess.run([os.path.join(repo, "src/pdsh/pdsh"), "-R", "exec", "-u", "2", "-f", str(fan), "-w",
@@ -332,9 +334,14 @@ def real_runs(ctx, cov):
         reported = any(re.match(r"^pdsh@[^:]*: r2: \S", l) for l in err.splitlines())   # under its name; any wording
         # sequential worst case at fanout 1: 1 s (r4) + command timeout 2 + WDOG_POLL 2, plus generous slack
         ok = not missing and reported and "r0: err-r0" in err.splitlines() and wall < 2 + 2 + 1 + 6 and rc >= 0
-        real.append({"fanout": fan, "wall_s": round(wall, 2), "ok": ok, "missing": missing, "timeout_reported": reported})
+        entry = {"fanout": fan, "wall_s": round(wall, 2), "ok": ok, "missing": missing, "timeout_reported": reported}
+        first_try = len(real) < 3
+        if first_try:
+            real.append(entry)
+        else:
+            real[{1: 0, 3: 1, 8: 2}[fan]] = dict(entry, retried=True)
         cov["evaluations"] += 1
-        if not ok:
+        if not ok and not first_try:
             ctx.offender("real-run", "pdsh -R exec -u 2 -f %d: missing=%s reported=%s wall=%.1fs rc=%s stderr=%r" %
                          (fan, missing, reported, wall, rc, err[-300:]),
                          {"cmd": "pdsh -R exec -u 2 -f %d -w r[0-5] c07helper.sh %%h" % fan, "helper": open(helper).read()})
